@@ -47,6 +47,12 @@ type ModSpec struct {
 	Expr ast.Expr
 }
 
+type GhostVar struct {
+	Name string
+	Sort string // int | bool | string | intarray | strarray
+	Init ast.Expr
+}
+
 type GhostUpdate struct {
 	At   string // "call N of F" | "loop K body end" | "entry" ...
 	Var  string
@@ -86,6 +92,10 @@ type Contract struct {
 	GhostWrites   []string
 	Deterministic bool
 	Reveals       []string
+	Preserves     []string
+	TypeFrame     bool
+	TypeFramePkgs []string
+	GhostVars     []GhostVar
 }
 
 type ContractSet struct {
@@ -194,7 +204,7 @@ func (cs *ContractSet) loadContractFile(path, pkgPath string) error {
 			no   int
 		}{t, i + 1})
 	}
-	keywords := []string{"pred ", "abstract pred ", "func ", "extern func ", "functype ", "requires ", "ensures", "logical ", "loop ", "modifies", "pure", "assert ", "ghost ", "when ", "guarded ", "lemma ", "hint ", "by ", "use ", "trusted", "acquires ", "fn ", "ufun ", "axiom ", "deterministic", "frametags ", "opaque pred ", "reveal "}
+	keywords := []string{"pred ", "abstract pred ", "func ", "extern func ", "functype ", "requires ", "ensures", "logical ", "loop ", "modifies", "pure", "assert ", "ghost ", "when ", "guarded ", "lemma ", "hint ", "by ", "use ", "trusted", "acquires ", "fn ", "ufun ", "axiom ", "deterministic", "frametags ", "opaque pred ", "reveal ", "preserves ", "ghostvar ", "typeframe", "typeframe "}
 	startsKeyword := func(s string) bool {
 		s = strings.TrimSpace(s)
 		for _, k := range keywords {
@@ -428,6 +438,35 @@ func (cs *ContractSet) loadContractFile(path, pkgPath string) error {
 				cur.Pure = true
 			case t == "deterministic":
 				cur.Deterministic = true
+			case t == "typeframe" || strings.HasPrefix(t, "typeframe "):
+				cur.TypeFrame = true
+				for _, x := range strings.Split(strings.TrimSpace(strings.TrimPrefix(t, "typeframe")), ",") {
+					if x = strings.TrimSpace(x); x != "" {
+						cur.TypeFramePkgs = append(cur.TypeFramePkgs, x)
+					}
+				}
+			case strings.HasPrefix(t, "preserves "):
+				for _, x := range strings.Split(strings.TrimPrefix(t, "preserves "), ",") {
+					cur.Preserves = append(cur.Preserves, strings.TrimSpace(x))
+				}
+			case strings.HasPrefix(t, "ghostvar "):
+				// ghostvar name sort [= init-expr]
+				rest := strings.TrimPrefix(t, "ghostvar ")
+				gv := GhostVar{}
+				if j := findDefEq(rest); j >= 0 {
+					e, err := parseExpr(rest[j+1:])
+					if err != nil {
+						return fmt.Errorf("%s:%d: %v", path, it.no, err)
+					}
+					gv.Init = e
+					rest = rest[:j]
+				}
+				f := strings.Fields(rest)
+				if len(f) < 2 {
+					return fmt.Errorf("%s:%d: ghostvar name sort", path, it.no)
+				}
+				gv.Name, gv.Sort = f[0], strings.Join(f[1:], " ")
+				cur.GhostVars = append(cur.GhostVars, gv)
 			case strings.HasPrefix(t, "reveal "):
 				for _, x := range strings.Split(strings.TrimPrefix(t, "reveal "), ",") {
 					cur.Reveals = append(cur.Reveals, strings.TrimSpace(x))
